@@ -70,7 +70,8 @@ CLASSES["InfoFont"].fields.update({
 CLASSES["InfoFont"].methods["newGlyph"] = _font_new_glyph
 CLASSES["InfoFont"].views.update({
     "glyphs": lambda f: {g.name: c19._px(g, "OutGlyph") for g in f},
-    "kerning": lambda f: ("kerning", tuple(sorted(f.kerning.items()))),
+    # (same shape as c19.math_snapshot of a MathKerning: the pairs and the KERNING groups (fontMath keeps only those) -- extractKerning writes both into the font)
+    "kerning": lambda f: ("kerning", tuple(sorted(f.kerning.items())), tuple(sorted((k, tuple(v)) for k, v in f.groups.items() if k.startswith(("public.kern1.", "public.kern2."))))),
     "groups": lambda f: {k: list(v) for k, v in f.groups.items()},
 })
 
@@ -150,7 +151,7 @@ CLASSES["MathObj"].methods["extractKerning"] = _mo_extract_kerning
 # ---- the Instantiator: the remaining fields, normalize, glyph_names -------------------------------------------------------------------
 CLASSES["InstanceDesc"].fields["location"] = LOCDICT
 CLASSES["Instantiator"].fields.update({
-    "kerning_mutator": Ref("Variator"), "copy_nonkerning_groups": Dict(STR, List(STR)), "copy_feature_text": STR, "copy_lib": Ref("LibObj"),
+    "kerning_mutator": Opt(Ref("Variator")), "copy_nonkerning_groups": Dict(STR, List(STR)), "copy_feature_text": STR, "copy_lib": Ref("LibObj"),
     "skip_export_glyphs": List(STR), "designspace_rules": List(c19.RULE), "default_design_location": LOCDICT,
 })
 
@@ -172,7 +173,8 @@ def _inst_normalize(ex, st, self, args, kwargs, node):
     r = ex.new_object(st, "Location")
     f = ex.spec_decl(api_specfn("norm_pairs"))
     pairs = ex.read_field(st, loc, "pairs") if isinstance(loc.ty, T.Ref) else Val(KEY, _dict_pairs_term(ex, loc))
-    ex.write_field(st, r, "pairs", Val(KEY, f(lift(pairs), lift(ex.read_field(st, self, "axis_bounds")))), node)
+    # (the new object's cell is DESCRIBED, not stored: the heap array Location.pairs -- an argument of the cache invariant -- stays the same term)
+    st.assume(z3.Select(ex.field_array(st, "Location", "pairs"), lift(r)) == f(lift(pairs), lift(ex.read_field(st, self, "axis_bounds"))))
     return r
 
 
@@ -325,4 +327,296 @@ CONTRACTS["ufo2ft.instantiator:Instantiator.generate_glyph_instance#new"].runtim
 CONTRACTS["ufo2ft.instantiator:Instantiator.new_glyph"].runtime = Runtime(c19b._ggi_cases, _nf_build)
 CONTRACTS["ufo2ft.instantiator:Instantiator.glyph_factory"].runtime = Runtime(
     c19b._ggi_cases, lambda d: {"self": c19b.rt_instantiator(d)[1]}, call=lambda fn, a: fn.func(a["self"])
+)
+
+
+# =====================================================================================================
+# the kerning instance: a class of its own for the NEW object (typed heap)
+# =====================================================================================================
+# MathKerning.round() rounds IN PLACE.  With one heap array for the content of all fontMath objects, that write changes the array which the
+# glyph-model cache invariant (variator_ok, a named predicate: not unfolded under a binder) is stated over, and the invariant could not be carried
+# across it.  The object that is rounded is the NEW one returned by the kerning model's instance_at; the variant `Variator.instance_at#kerning`
+# (same body, same clauses) puts that new object into the class MathKern, whose content lives in an array of its own.
+_KVAR = "ufo2ft.instantiator:Variator.instance_at#kerning"
+
+def _new_cls(ex):
+    return "MathKern" if getattr(getattr(ex, "c", None), "key", None) == _KVAR else "MathObj"
+
+_dc0 = TRUSTED["copy.deepcopy"].model
+def _deepcopy_k(ex, st, args, kwargs, node):
+    (x,) = args
+    if _new_cls(ex) == "MathKern" and isinstance(x.ty, T.Ref) and x.ty.cls == "MathObj":
+        r = ex.new_object(st, "MathKern")
+        ex.write_field(st, r, "data", ex.read_field(st, x, "data"), node)
+        ex.write_field(st, r, "kind", ex.read_field(st, x, "kind"), node)
+        return r
+    return _dc0(ex, st, args, kwargs, node)
+TRUSTED["copy.deepcopy"].model = _deepcopy_k
+
+_vi0 = CLASSES["VariationModel"].methods["interpolateFromMasters"]
+def _vm_interpolate_k(ex, st, self, args, kwargs, node):
+    if _new_cls(ex) != "MathKern":
+        return _vi0(ex, st, self, args, kwargs, node)
+    loc, masters = args
+    if kwargs:
+        raise Unsupported("interpolateFromMasters(round=...)", node)
+    f = ex.spec_decl(c19.api_specfn("vm_interp"))
+    content = ex.field_array(st, "MathObj", "data")
+    r = ex.new_object(st, "MathKern")
+    d = f(lift(self), lift(ex.read_field(st, loc, "pairs")), lift(masters, List(Ref("MathObj"))), content)
+    ex.write_field(st, r, "data", Val(MDATA, d), node)
+    ms = lift(masters, List(Ref("MathObj")))
+    k0 = z3.Select(ex.field_array(st, "MathObj", "kind"), ms[0])
+    ex.write_field(st, r, "kind", Val(INT, z3.If(z3.Length(ms) > 0, k0, fresh(INT, "kind"))), node)
+    return r
+for a in ("modifies",):
+    if hasattr(_vi0, a): setattr(_vm_interpolate_k, a, getattr(_vi0, a))
+CLASSES["VariationModel"].methods["interpolateFromMasters"] = _vm_interpolate_k
+
+def _mk_round(ex, st, self, args, kwargs, node):
+    """MathKerning.round(): rounds self IN PLACE, returns None"""
+    if args or kwargs:
+        raise Unsupported("round(digits)", node)
+    ex.safety(st, lift(ex.read_field(st, self, "kind")) == c19.KIND_KERNING, "AssertionError", node)  # (the in-place model is MathKerning's)
+    f = ex.spec_decl(c19.api_specfn("math_rounded"))
+    ex.write_field(st, self, "data", Val(MDATA, f(lift(ex.read_field(st, self, "data")))), node)
+    return Val.const(None)
+_mk_round.modifies = ["MathKern.data"]
+
+def _mk_extract_kerning(ex, st, self, args, kwargs, node):
+    (font,) = args
+    ex.safety(st, lift(ex.read_field(st, self, "kind")) == c19.KIND_KERNING, "AttributeError", node)
+    data = ex.read_field(st, self, "data")
+    g = ex.read_field(st, font, "groups")
+    ex.safety(st, z3.Length(g.ty.sort().keys(lift(g))) == 0, "AssertionError", node)  # model applicability: groups.update(..) on a font without groups
+    ex.write_field(st, font, "kerning", data, node)
+    f = ex.spec_decl(c19.api_specfn("kerning_groups_of"))
+    ex.write_field(st, font, "groups", Val(Dict(STR, List(STR)), f(lift(data))), node)
+    return Val.const(None)
+_mk_extract_kerning.modifies = ["InfoFont.kerning", "InfoFont.groups"]
+
+cls("MathKern", fields={"data": MDATA, "kind": INT}, methods={"round": _mk_round, "extractKerning": _mk_extract_kerning},
+    views={"data": c19.math_snapshot, "kind": c19._math_kind},
+    notes="the NEW fontMath object returned by the kerning model's instance_at, kept apart from the stored fontMath objects (MathObj): same two "
+    "fields; a new object is in no container of MathObj references, so giving it a class of its own loses nothing and keeps the heap array that the "
+    "stored objects live in syntactically untouched when the new object is rounded in place")
+
+_o = CONTRACTS["ufo2ft.instantiator:Variator.instance_at"]
+contract(
+    "ufo2ft.instantiator:Variator.instance_at",
+    name="kerning",
+    props=["C19"],
+    params=dict(_o.params),
+    returns=Ref("MathKern"),
+    requires=list(_o.requires),
+    ensures={k: v for k, v in _o.ensures.items() if k != "not-a-master"},
+    bounded_ensures=dict(_o.bounded_ensures),
+    canaries=dict(_o.canaries),
+    globals=dict(_o.globals),
+)
+CONTRACTS[_KVAR].runtime = _o.runtime
+
+
+# =====================================================================================================
+# generate_instance, half A: the instance before the rule swaps (a designspace without rules)
+# =====================================================================================================
+from pyvc.symex import FuncRef  # noqa: E402
+from .c19b import _IDX, _L, _M  # noqa: E402
+from .c19d import _IM  # noqa: E402
+
+CLASSES["Instantiator"].fields["kerning_mutator"] = Opt(Ref("Variator"))
+
+@trusted("c19.swap_unreachable", "stand-in for swap_glyph_names in the variant without rules: calling it is an error to be excluded (obligation False)")
+def _swap_unreachable(ex, st, args, kwargs, node):
+    ex.safety(st, z3.BoolVal(False), "AssertionError", node)
+    return Val.const(None)
+
+_KM = "self.kerning_mutator"
+_MERGED = "{**self.default_design_location, **instance.location}"
+_NP = f"norm_pairs(dict_pairs({_MERGED}), self.axis_bounds)"
+
+def glyph_ok(n, font, pairs):
+    V = f"{_M}[{n}]"; g = f"{font}.glyphs[{n}]"; key = f"lockey({pairs})"
+    return {
+        "cached": f"{n} in self.cached",
+        "name": f"{g}.name == {n}",
+        "unicodes-from-default": f"{g}.unicodes == self.default_source_glyphs[{n}].unicodes",
+        "master-at-master-location": f"implies({key} in {V}.location_to_master, {g}.geometry == maybe_rounded(self.round_geometry, {V}.location_to_master[{key}].data))",
+        "blend-elsewhere": f"implies({key} not in {V}.location_to_master, {g}.geometry == maybe_rounded(self.round_geometry, vm_interp({V}.model, {pairs}, {V}.masters, self.content)))",
+    }
+
+_RT_NP, _RT_LOC = [], {}
+_REQ = [
+    f"0 <= {_IDX} and {_IDX} < len({_L})",
+    f"all(allocated({_L}[a][0]) and allocated({_L}[a][1]) for a in range(len({_L})))",
+    f"all(all(implies(has_glyph({_L}, a, n), len({_L}[a][1][n]) >= 0) for a in range(len({_L}))) for n in self.glyph_names)",
+    *cache_ok().values(),
+    # the kerning / info models (built by from_designspace with Variator.from_masters(collect_*_masters(..))): MathKerning / MathInfo objects
+    f"implies({_KM} is not None, all(allocated(m) and m.kind == 2 for m in {_KM}.masters) and all(allocated({_KM}.location_to_master[k]) and {_KM}.location_to_master[k].kind == 2 for k in {_KM}.location_to_master) and len({_KM}.masters) >= 1)",
+    f"all(allocated(m) and m.kind == 1 for m in {_IM}.masters) and all(allocated({_IM}.location_to_master[k]) and {_IM}.location_to_master[k].kind == 1 for k in {_IM}.location_to_master) and len({_IM}.masters) >= 1",
+    "all(self.special_axes[t].name in self.default_design_location for t in self.special_axes)",
+    "allocated(self.copy_info) and allocated(self.copy_lib)",
+    "len(self.designspace_rules) == 0",
+]
+_IDATA = c19d._FINAL.replace("location_normalized.pairs", "NP")
+_KKEY = "lockey(NP)"
+
+contract(
+    "ufo2ft.instantiator:Instantiator.generate_instance",
+    name="no-rules",
+    props=["C19"],
+    params={"self": Ref("Instantiator"), "instance": Ref("InstanceDesc")},
+    returns=Ref("InfoFont"),
+    requires=_REQ,
+    raises={"InstantiatorError": "False"},
+    ghost_vars={"gw": (Dict(STR, INT), "{}"), "NP": (c19.KEY, "[]"), "LOC": (c19b.LOCDICT, "{}")},
+    merge_branches=True,
+    hints={"font.groups[key] = [name for name in glyph_names]": ["font.groups[key] == glyph_names"],
+    },
+    ghost={"location = {**self.default_design_location, **instance.location}": ["LOC = location"],
+           "location_normalized = self.normalize(location)": ["NP = location_normalized.pairs"],
+           "glyph = font.newGlyph(glyph_name)": ["gw = {**gw, glyph_name: gi}"]},
+    ensures={
+        "new-font": "fresh(result)",
+        "glyph-set.all-default-names": "all(n in result.glyphs for n in self.glyph_names)",
+        "glyph-set.only-default-names": "all(n in self.default_source_glyphs for n in result.glyphs)",
+        # LOC (ghost) = the instance's design location: the default design location overridden by the instance's own entries; NP its normalisation
+        # kerning: the kerning model's instance -- master content at a master location, the model's blend elsewhere -- and its groups
+        "kerning.master-at-master-location": f"implies({_KM} is not None and {_KKEY} in {_KM}.location_to_master, result.kerning == maybe_rounded(self.round_geometry, {_KM}.location_to_master[{_KKEY}].data))",
+        "kerning.blend-elsewhere": f"implies({_KM} is not None and {_KKEY} not in {_KM}.location_to_master, result.kerning == maybe_rounded(self.round_geometry, vm_interp({_KM}.model, NP, {_KM}.masters, self.content)))",
+        # groups: the non-kerning groups of the default source, copied (on top of the kerning groups written with the kerning)
+        "groups.non-kerning-copied": "all(g in result.groups and result.groups[g] == self.copy_nonkerning_groups[g] for g in self.copy_nonkerning_groups)",
+        # info: by _generate_instance_info's contract (the other clauses of that contract hold of result.info as well; restated: the numbers)
+        "info.master-or-blend": f"result.info.interpolated == {_IDATA}",
+        "features.copied": "result.features.text == self.copy_feature_text",
+        "lib.copied": "result.lib is not self.copy_lib and result.lib.other == self.copy_lib.other and result.lib.skip_export == self.skip_export_glyphs",
+        "lib.design-location": "result.lib.location is not None and all(p[0] in LOC and LOC[p[0]] == p[1] for p in result.lib.location)",
+        "location.axes": "all(k in LOC for k in self.default_design_location) and all(k in LOC for k in instance.location) and all(k in self.default_design_location or k in instance.location for k in LOC)",
+        "location.values": "all(LOC[k] == (instance.location[k] if k in instance.location else self.default_design_location[k]) for k in LOC)",
+        "location.normalized": "NP == norm_pairs(dict_pairs(LOC), self.axis_bounds)",
+        **{"glyph." + k: f"all({v} for n in result.glyphs)" for k, v in glyph_ok("n", "result", "NP").items()},
+        **cache_ok(),
+    },
+    canaries={
+        "empty-font": "len(result.glyphs) == 0",
+        "glyphs-never-rounded": f"all(implies(lockey(NP) in {_M}[n].location_to_master, result.glyphs[n].geometry == {_M}[n].location_to_master[lockey(NP)].data) for n in result.glyphs)",
+        "kerning-never-rounded": f"implies({_KM} is not None and {_KKEY} in {_KM}.location_to_master, result.kerning == {_KM}.location_to_master[{_KKEY}].data)",
+        "cache-untouched": f"{_M} == old({_M})",
+    },
+    loops={
+        "for (key, glyph_names) in self.copy_nonkerning_groups.items()": Loop(index="ci", seq="CK", invariants={
+            "copied-so-far": "all(CK[k] in font.groups and font.groups[CK[k]] == self.copy_nonkerning_groups[CK[k]] for k in range(ci))"}),
+        "for glyph_name in self.glyph_names": Loop(index="gi", invariants={
+            "np": "NP == location_normalized.pairs",
+            "glyph-objects": "all(allocated(font.glyphs[n]) for n in font.glyphs)",
+            "names-so-far": "all(self.glyph_names[k] in font.glyphs for k in range(gi))",
+            "only-names-so-far": "all(0 <= gw[n] and gw[n] < gi and self.glyph_names[gw[n]] == n for n in font.glyphs)",
+            **{"glyph." + k: f"all({v} for n in font.glyphs)" for k, v in glyph_ok("n", "font", "NP").items()},
+            **cache_ok(),
+        }),
+        "for (name_old, name_new) in swaps": Loop(index="wi", invariants={"none": "len(swaps) == 0"}),
+    },
+    # (NP / LOC: ghost variables in the logic; at run time -- where there is no ghost state -- the harness supplies their values, computed from
+    # the arguments by their defining equations: LOC = default design location overridden by the instance's, NP = its normalisation)
+    globals={"NP": _RT_NP, "LOC": _RT_LOC, "importUfoModule": c19b._ref("c19.importUfoModule"), "typing": FuncRef(_TypingNS, "c19.typingNS"), "swap_glyph_names": c19b._ref("c19.swap_unreachable"), **c19._ACCESSORS},
+    calls={"ufo2ft.instantiator:Variator.instance_at": _KVAR, "ufo2ft.instantiator:process_rules_swaps": "ufo2ft.instantiator:process_rules_swaps#dict", "ufo2ft.instantiator:Instantiator.generate_glyph_instance": "ufo2ft.instantiator:Instantiator.generate_glyph_instance#into"},
+    # (class-granular where a callee's / a model's frame is: _generate_instance_info writes font.info.*, newGlyph font.glyphs; no object of these
+    # classes is a source)
+    modifies=["Instantiator.glyph_mutators", "InfoFont.glyphs", "InfoFont.groups", "OutGlyph.geometry", "OutGlyph.name", "OutGlyph.unicodes"]
+    + CONTRACTS["ufo2ft.instantiator:Instantiator._generate_instance_info"].modifies,
+)
+
+
+def _gi_cases(rng, n):
+    out = []
+    for fam in c19.FAMILIES:
+        for k in range(9):
+            out.append({"family": fam, "loc": k, "round": rng.random() < 0.5, "warm": [[rng.choice(c19.GLYPHS), rng.randrange(8)] for _ in range(rng.choice([0, 2]))], "do_kerning": rng.random() < 0.6,
+                        "names": {"familyName": rng.choice([None, "Fam"]), "styleName": rng.choice([None, "Sty"])}, "drop_kerning": rng.random() < 0.4})
+    rng.shuffle(out)
+    return out[:n]
+
+
+def _gi_build(d):
+    from fontTools import designspaceLib
+    from ufo2ft.instantiator import Instantiator
+
+    ds = c19.rt_designspace(d["family"])
+    ds.rules = []
+    if d["drop_kerning"]:
+        for s in ds.sources:
+            s.font.kerning.clear()
+    inst = Instantiator.from_designspace(ds, round_geometry=d["round"], do_kerning=d["do_kerning"])
+    locs = c19b.rt_locations(ds)
+    for g, k in d["warm"]:  # glyph models cached by earlier instances (history)
+        try:
+            inst.generate_glyph_instance(g, inst.normalize({**inst.default_design_location, **locs[k % len(locs)]}))
+        except Exception:
+            pass
+    desc = designspaceLib.InstanceDescriptor()
+    desc.designLocation = dict(locs[d["loc"] % len(locs)])
+    for a, v in d["names"].items():
+        setattr(desc, a, v)
+    _RT_LOC.clear()
+    _RT_LOC.update({**inst.default_design_location, **desc.location})
+    _RT_NP[:] = list(inst.normalize(dict(_RT_LOC)).items())
+    return {"self": inst, "instance": desc}
+
+
+CONTRACTS["ufo2ft.instantiator:Instantiator.generate_instance#no-rules"].runtime = Runtime(_gi_cases, _gi_build)
+
+
+# =====================================================================================================
+# generate_instance, half B: the swaps on an instance -- a LIST of swaps applied in order is ONE permutation of the glyph names
+# =====================================================================================================
+# swap_glyph_names(font, a, b) (contracts/c19c.py, proved against the code) says of ONE swap: afterwards the content filed under x is what was
+# filed under swapname(a, b, x) (post.exchanged + post.others-untouched), component bases / kerning keys / group members are mapped through
+# swapname(a, b, .).  generate_instance applies the swaps of process_rules_swaps in list order (skipping a == b, where swapname is the identity).
+# The lemmas below are the induction steps that fold such a list: source_of(S, x, k) = the name under which the content that ends up under x
+# after the first k swaps was filed at the start; image_of(S, n, k) = where the references to n point after the first k swaps.
+from .c19 import SUB, swapname  # noqa: E402,F401
+
+
+@specfn(STR, S=List(SUB), x=STR, k=INT)
+def source_of(S, x, k):
+    """the name whose ORIGINAL content is filed under x after the first k swaps of S"""
+    if k <= 0:
+        return x
+    return source_of(S, swapname(S[k - 1][0], S[k - 1][1], x), k - 1)
+
+
+@specfn(STR, S=List(SUB), n=STR, k=INT)
+def image_of(S, n, k):
+    """the name that a reference to n (component base, kerning side, group member) has become after the first k swaps of S"""
+    if k <= 0:
+        return n
+    return swapname(S[k - 1][0], S[k - 1][1], image_of(S, n, k - 1))
+
+
+_CONTENT = Map(STR, MDATA)
+
+lemma(
+    "C19.lemma.swap-fold.content",
+    props=["C19"],
+    vars={"S": List(SUB), "k": INT, "C0": _CONTENT, "Ck": _CONTENT, "Ck1": _CONTENT, "x": STR},
+    # induction step: after k swaps the content under every name is the original content of source_of(.., k); swap number k+1 is one conjugation
+    hyps=["0 <= k and k < len(S)", "Ck[swapname(S[k][0], S[k][1], x)] == C0[source_of(S, swapname(S[k][0], S[k][1], x), k)]", "Ck1[x] == Ck[swapname(S[k][0], S[k][1], x)]"],
+    concl={"step": "Ck1[x] == C0[source_of(S, x, k + 1)]", "base": "source_of(S, x, 0) == x"},
+    canaries={"nothing-moves": "Ck1[x] == C0[x]"},
+)
+lemma(
+    "C19.lemma.swap-fold.references",
+    props=["C19"],
+    vars={"S": List(SUB), "k": INT, "n": STR, "m": STR},
+    hyps=["0 <= k and k < len(S)", "implies(image_of(S, n, k) == image_of(S, m, k), n == m)", "source_of(S, image_of(S, n, k), k) == n"],
+    concl={
+        # references are mapped through one more transposition ...
+        "step": "image_of(S, n, k + 1) == swapname(S[k][0], S[k][1], image_of(S, n, k))",
+        # ... the folded map stays injective (no two glyphs, kerning keys or group members collide) ...
+        "injective-step": "implies(image_of(S, n, k + 1) == image_of(S, m, k + 1), n == m)",
+        # ... and it is the inverse of the content permutation: a reference to n ends at the name under which n's original content is filed
+        "references-follow-content": "source_of(S, image_of(S, n, k + 1), k + 1) == n",
+        "base": "image_of(S, n, 0) == n and source_of(S, image_of(S, n, 0), 0) == n",
+    },
+    canaries={"nothing-moves": "image_of(S, n, k + 1) == n"},
 )
